@@ -7,7 +7,10 @@ import regen
 
 def gen_cases(ctx):
     n = 2500 if ctx.quick else 40000
-    return qcommon.gen_statement_cases(ctx, n, no_marks=True)
+    # a quarter of the values are drawn from a pool over EVERY value kind (payload-crate values, vectors, floats,
+    # arrays, NULL of every variant; tools/richvalues.py): the renderer correspondence compares value_to_string
+    # and the bound values for them too
+    return qcommon.gen_statement_cases(ctx, n, no_marks=True, rich_values=400 if ctx.quick else 3000)
 
 
 def batch_oracle(ctx, lines, impl):
@@ -48,7 +51,10 @@ def run(ctx):
         ctx, "fa", gen_cases, batch_oracle=batch_oracle, describe=qcommon.describe, regen=regen_tables,
         nontrivial=lambda c: "(val " in c,
         rule="random builder programs (SELECT/INSERT/UPDATE/DELETE/WITH, nesting depth up to 3: subqueries, unions, CTEs, "
-             "CASE, VALUES lists, upsert, RETURNING, windows, LIMIT/OFFSET, custom templates) x 3 backends; the "
+             "CASE, VALUES lists, upsert, RETURNING, windows, LIMIT/OFFSET, custom templates) x values of every kind (all 31 "
+             "Value variants incl. json / chrono / time / uuid / decimal / bigdecimal / vector / ipnetwork / mac address, "
+             "finite floats, NULL of every variant, arrays of every element kind incl. empty / NULL / with NULL "
+             "elements) x 3 backends; the "
              "implementation's (sql, values) must equal the model's byte for byte, and the extracted engine tokenizer "
              "must find exactly len(values) placeholders outside quoted text, numbered 1..n on Postgres; "
              "non-trivial = the program binds at least one value")
